@@ -580,6 +580,73 @@ def random_specs(ctx, count, lo, hi):
     return specs
 
 
+# Lengauer-Tarjan stress: link-eval only goes wrong when ancestor_with_lowest_semi compresses
+# the same path more than once and the depth-first order is the unlucky one, which needs >= 6
+# nodes.  Three seeded families, each graph under several relabellings (node numbers decide the
+# iteration order of ppci's successor sets, hence the depth-first order; the edge insertion order
+# is shuffled too).  Only lt.calculate_idom is recorded for them (one cheap observation each).
+LT_WITNESS = [(1, 3), (1, 4), (3, 5), (3, 6), (6, 2), (6, 4), (4, 2), (2, 5)]  # idom(5) = 1
+
+
+def chain_cfg(rng, n):
+    """A long depth-first chain 1 -> 2 -> ... -> m, side nodes hanging off earlier nodes, and
+    several arbitrary extra edges (forward, cross and back edges into the chain)."""
+    m = rng.randrange(max(3, n // 2), n + 1)
+    edges = {(k, k + 1) for k in range(1, m)}
+    for k in range(m + 1, n + 1):
+        edges.add((rng.randrange(1, k), k))
+    for _ in range(rng.randrange(2, n + 2)):
+        edges.add((rng.randrange(1, n + 1), rng.randrange(1, n + 1)))
+    return sorted(edges)
+
+
+def witness_cfg(rng):
+    """The smallest graph on which a best[] entry must survive a second compression, varied by
+    subdividing edges and adding arbitrary edges."""
+    n = 6
+    e = list(LT_WITNESS)
+    for _ in range(rng.randrange(0, 4)):
+        if rng.random() < 0.5:
+            a, b = rng.choice(e)
+            n += 1
+            e.remove((a, b))
+            e += [(a, n), (n, b)]
+        else:
+            e.append((rng.randrange(1, n + 1), rng.randrange(1, n + 1)))
+    return n, sorted(set(e))
+
+
+def relabelled(rng, n, edges, entry):
+    perm = list(range(1, n + 1))
+    rng.shuffle(perm)
+    e = [(perm[a - 1], perm[b - 1]) for a, b in edges]
+    rng.shuffle(e)
+    return e, perm[entry - 1]
+
+
+def lt_stress_specs(ctx, scale=1):
+    rng = ctx.rng
+    specs = []
+
+    def add(n, e, labelings):
+        specs.append((n, e, 1, [], ("lt",)))
+        for _ in range(labelings):
+            e2, ent = relabelled(rng, n, e, 1)
+            specs.append((n, e2, ent, [], ("lt",)))
+
+    add(6, sorted(LT_WITNESS), 24 * scale)
+    for _ in range(150 * scale):
+        n, e = witness_cfg(rng)
+        add(n, e, 3)
+    for _ in range(1500 * scale):
+        n = rng.randrange(6, 13)
+        add(n, chain_cfg(rng, n), 1)
+    for _ in range(1500 * scale):
+        n = rng.randrange(6, 13)
+        add(n, random_cfg(rng, n), 1)
+    return specs
+
+
 def five_node_specs(ctx):
     nb = 20
     step = 1 << 14
@@ -740,7 +807,9 @@ class Engine:
                  "pairs, immediate post-dominators, can_reach on all pairs) and judged by TLC against the path-based "
                  "definitions. Work list quick: all 39178 labelled digraphs on <=4 nodes (self loops included) for "
                  "idom/queries/intervals/tree/df, the loop-free ones plus one seeded self-loop variant each for the other "
-                 "clauses (exits {1,n}), 300 seeded CFGs of 5-10 nodes, CFGs of compiled C functions; thorough: can_reach/lt/"
+                 "clauses (exits {1,n}), 300 seeded CFGs of 5-10 nodes, CFGs of compiled C functions, and ~6700 Lengauer-Tarjan stress "
+                 "graphs of 6-12 nodes (witness family of the smallest double-compression graph, long-chain CFGs, random "
+                 "CFGs; each under seeded relabellings) judged on lt.calculate_idom; thorough: can_reach/lt/"
                  "intervals/tree on all of them too, all loop-free 5-node graphs up to isomorphism fixing the entry (seeded "
                  "self loops), 8000 seeded 6-8 node and 1000 seeded 9-14 node graphs. Post-dominators: exit = node n "
                  "whenever it is a sink (exhaustive up to renaming), exits with successors and entries with predecessors "
@@ -781,7 +850,8 @@ class Engine:
                    lambda: record_many([sp for sp in small if sp[0] <= 3] + random_specs(ctx, 300, 5, 10))
                    + ir_records(drv, sorted(C_SNIPPETS) if thorough else ["loops", "switch"]))]
         four = [sp for sp in small if sp[0] == 4]
-        stages.append(("4 nodes", lambda: record_many(four)))
+        stages.append(("4 nodes + Lengauer-Tarjan stress (6-12 nodes, relabelled)",
+                       lambda: record_many(four) + record_many(lt_stress_specs(ctx, 4 if thorough else 1))))
         if thorough:
             stages.append(("5 nodes up to isomorphism", lambda: record_many(five_node_specs(ctx))))
             stages.append(("seeded 6-8 nodes", lambda: record_many(random_specs(ctx, 8000, 6, 8))))
